@@ -108,6 +108,7 @@ def run_case(case: dict) -> CaseResult:
                 return res
             frames_written += 1
             del tr.writes[before:]
+            del tr.objs[before:]
         classes.add("long_session")
         if npre >= 256:
             classes.add("nonce_ge_256")
@@ -236,6 +237,11 @@ def run_case(case: dict) -> CaseResult:
                 nt = True
         if conn.errors:
             res.violations.append(Violation(ID, "c02:error-reported-on-write", repr(conn.errors)))
+            break
+        # what was handed to the transport earlier is still what it was (the transport may not have sent it yet)
+        changed = next((k for k, (o_, w_) in enumerate(zip(tr.objs, tr.writes)) if bytes(o_) != w_), None)
+        if changed is not None:
+            res.violations.append(Violation(ID, "c02:written-buffer-changed-afterwards", f"the object given to transport.write() as write #{changed} ({type(tr.objs[changed]).__name__}) changed after call {ci}"))
             break
     res.nontrivial = nt
     res.classes = sorted(classes)
